@@ -5,7 +5,7 @@
 From Coq Require Import Lia.
 From RM Require Import C20.Model C20.Proofs C20.Sinks C20.SinksProofs.
 From RM Require Gen.C20DumpSeq C20.DumpSeq Gen.C20Wiring C20.Wiring Gen.C20Cli.
-From RM Require Import C20.ClapSpec C20.Clap C20.ClapProofs.
+From RM Require Import C20.ClapSpec C20.Clap C20.ClapProofs C20.ClapSinks.
 Open Scope Z_scope.
 
 (* Every flag record is rejected, is the hidden --help-markdown, or has a plan.  [flags] has
@@ -403,6 +403,25 @@ Theorem c20_after_dashdash_positional : forall items acc ws out,
 Proof. exact (after_dashdash_positional CLI GROUP). Qed.
 Print Assumptions c20_after_dashdash_positional.
 
+(* a Vec field of struct Cli collects its occurrences in command-line order, and so they reach the symbol supplier: read off
+   the command line item by item, the paths the supplier receives are the --symbols-path values (either form) in the order given,
+   then the positional words behind the first (the minidump); the URLs are the --symbols-url values in the order given.  This
+   closes the gap between the argument vector and c20_symbol_paths_in_given_order (which starts from an abstract argv). *)
+Theorem c20_symbol_arguments_in_order : forall items out, items_effect CLI [] items = Some out ->
+  values_of out "symbols_path"%str = opt_values "symbols-path"%str items /\
+  values_of out "symbols_url"%str = opt_values "symbols-url"%str items /\
+  values_of out "minidump"%str = firstn 1 (words items) /\
+  values_of out "symbols_path_legacy"%str = tl (words items).
+Proof. exact symbol_arguments_in_order. Qed.
+Print Assumptions c20_symbol_arguments_in_order.
+
+Theorem c20_argv_symbol_sources : forall pid items out, items_effect CLI [] items = Some out ->
+  supplier_paths (supplier_of (sym_cli_of pid out)) =
+    map pid (opt_values "symbols-path"%str items) ++ map pid (tl (words items)) /\
+  supplier_urls (supplier_of (sym_cli_of pid out)) = map pid (opt_values "symbols-url"%str items).
+Proof. exact argv_symbol_sources. Qed.
+Print Assumptions c20_argv_symbol_sources.
+
 (* rejections, where they stand (behind any readable prefix, whatever follows - a later --help included): a flag or single-valued
    option the prefix already holds, in either form and with any value; a value the option's value parser refuses, in either form *)
 Theorem c20_repeated_option_rejected : forall items out name a post,
@@ -556,6 +575,7 @@ Example c20_nonvacuous_manual_reading :
                   "--symbols-path=more"; "--symbols-path"; "-"]%str /\
   parse CLI GROUP (render items) = PParsed out /\
   parse CLI GROUP (render items ++ ["--help"; "--bogus"]%str) = PHelp /\
+  supplier_paths (supplier_of (sym_cli_of (fun s => if str_eqb s "more"%str then 5 else if str_eqb s "-"%str then 6 else 7) out)) = [5; 6; 7] /\
   items_effect CLI [] [IFlag "json"; IFlag "json"; IWord "a.dmp"]%str = None /\
   items_effect CLI [] [IOptEq "features" "Stable-All"; IWord "a.dmp"]%str = None /\
   find_long CLI "feature"%str = None.
